@@ -225,7 +225,7 @@ def _diag(
             if g in bd_conf["cluster"]:
                 for key in bd_conf["cluster"][g]:
                     cconf[key] = bd_conf["cluster"][g][key]
-            sg = pydot.Subgraph("cluster_" + g, label=g, **cconf)
+            sg = pydot.Subgraph(_qid("cluster_" + g), label=_qid(g), **cconf)
             for n in sys._g.attrs["nodes"]:
                 if sys._g.attrs["groups"][n] == g:
                     add_node(sg, n, bd_conf["node"], ldf)
